@@ -120,3 +120,73 @@ Print Assumptions C14_sigalg_names_algorithm.
 Theorem C14_parse_query_is_a_map : forall q, NoDup (values_keys (parse_query q)).
 Proof. exact parse_query_wf. Qed.
 Print Assumptions C14_parse_query_is_a_map.
+
+(* ---- source tie: the redirect-binding functions as TRANSLATED from /repo's build_request.go on this run (GenRedirect.v)
+   are the model the theorems above are about.  Oracles, universally quantified: [url_parse] (url.Parse: the split of the
+   endpoint URL and its ForceQuery flag, or failure), [write_doc] (etree's WriteToString), [fl_write] / [fl_close] (what the
+   DEFLATE writer appends to the buffer at the one Write and at Close, as functions of the chunks written before), [sign]
+   (SignString).  [PVal] = the translated body, in which every nil dereference and index is a panic branch, never panics. *)
+From V Require Import Xml GenPrelude GenPreludeRedirect GenRedirect P_GenRedirect.
+Theorem C14_source_signatureInputString_is_the_model : forall saml_request relay_state sig_alg,
+  G_signatureInputString saml_request relay_state sig_alg = PVal (signature_input_string saml_request relay_state sig_alg).
+Proof. exact G_signatureInputString_is_model. Qed.
+Print Assumptions C14_source_signatureInputString_is_the_model.
+
+Theorem C14_source_buildAuthURLFromDocument_is_the_model :
+  forall (url_parse : string -> option gurl) (write_doc : node -> res string)
+         (fl_write : list string -> string -> string) (fl_close : list string -> string)
+         (sign : hash_alg -> string -> option string) sp relay binding doc,
+  G_buildAuthURLFromDocument url_parse write_doc fl_write fl_close sign sp relay binding doc
+  = PVal (match url_parse (rsp_sso_url sp) with
+          | None => Err (EOther "url.Parse")
+          | Some u =>
+              do s <- write_doc doc;
+              do r <- build_auth_url sign (rsp_cfg sp) (Some (gu_split u)) relay binding (fl_write [] s ++ fl_close [s]);
+              Ok (fst r)
+          end).
+Proof. exact G_buildAuthURLFromDocument_is_model. Qed.
+Print Assumptions C14_source_buildAuthURLFromDocument_is_the_model.
+
+Theorem C14_source_buildLogoutURLFromDocument_is_the_model :
+  forall (url_parse : string -> option gurl) (write_doc : node -> res string)
+         (fl_write : list string -> string -> string) (fl_close : list string -> string)
+         (sign : hash_alg -> string -> option string) sp relay binding doc,
+  G_buildLogoutURLFromDocument url_parse write_doc fl_write fl_close sign sp relay binding doc
+  = PVal (match url_parse (rsp_slo_url sp) with
+          | None => Err (EOther "url.Parse")
+          | Some u =>
+              do s <- write_doc doc;
+              do r <- build_logout_url sign (rsp_cfg sp) (Some (gu_split u)) relay binding (fl_write [] s ++ fl_close [s]);
+              Ok (fst r)
+          end).
+Proof. exact G_buildLogoutURLFromDocument_is_model. Qed.
+Print Assumptions C14_source_buildLogoutURLFromDocument_is_the_model.
+
+(* the exported entry points: BuildAuthURLFromDocument (POST binding constant: never signs), BuildAuthURLRedirect,
+   BuildLogoutURLRedirect, and BuildAuthURL on the document BuildAuthRequestDocument returned (an element or an error) *)
+Theorem C14_source_exported_wrappers_are_the_model :
+  forall (url_parse : string -> option gurl) (write_doc : node -> res string)
+         (fl_write : list string -> string -> string) (fl_close : list string -> string)
+         (sign : hash_alg -> string -> option string) sp relay doc (built : res node),
+  let url_of := url_of fl_write fl_close in
+  G_BuildAuthURLFromDocument url_parse write_doc fl_write fl_close sign sp relay doc
+    = PVal (url_of (url_parse (rsp_sso_url sp)) (write_doc doc)
+              (fun parsed => build_auth_url_from_document sign (rsp_cfg sp) parsed relay)) /\
+  G_BuildAuthURLRedirect url_parse write_doc fl_write fl_close sign sp relay doc
+    = PVal (url_of (url_parse (rsp_sso_url sp)) (write_doc doc)
+              (fun parsed => build_auth_url_redirect sign (rsp_cfg sp) parsed relay)) /\
+  G_BuildLogoutURLRedirect url_parse write_doc fl_write fl_close sign sp relay doc
+    = PVal (url_of (url_parse (rsp_slo_url sp)) (write_doc doc)
+              (fun parsed => build_logout_url_redirect sign (rsp_cfg sp) parsed relay)) /\
+  G_BuildAuthURL url_parse write_doc fl_write fl_close sign sp relay (res_some built)
+    = PVal (do d <- built;
+            url_of (url_parse (rsp_sso_url sp)) (write_doc d)
+              (fun parsed => build_auth_url_from_document sign (rsp_cfg sp) parsed relay)).
+Proof.
+  exact (fun up wd fw fc sg sp relay doc built =>
+    conj (G_BuildAuthURLFromDocument_is_model up wd fw fc sg sp relay doc)
+   (conj (G_BuildAuthURLRedirect_is_model up wd fw fc sg sp relay doc)
+   (conj (G_BuildLogoutURLRedirect_is_model up wd fw fc sg sp relay doc)
+         (G_BuildAuthURL_is_model up wd fw fc sg sp relay built)))).
+Qed.
+Print Assumptions C14_source_exported_wrappers_are_the_model.
